@@ -553,9 +553,16 @@ def _graceful_at(sc, V, n, wname):
                 g = int(round(o["graceful_timeout"] * 1000))
         if s.cmd() == "set" and isinstance(p.get("name"), str) and p["name"].lower() == wname.lower():
             o = p.get("options")
-            if isinstance(o, dict) and isinstance(o.get("graceful_timeout"), (int, float)) and \
-                    any(l[0] == "ev" and l[2] == "updated" for l in s.lines):
-                g = int(round(float(o["graceful_timeout"]) * 1000))
+            if isinstance(o, dict) and isinstance(o.get("graceful_timeout"), (int, float)):
+                # `set` applies its options one by one, in the order of the request, and stops at the first that raises
+                # (F4); every applied option publishes one `updated` event: graceful_timeout is in force only if the
+                # request got as far as that key
+                n_upd = sum(1 for l in s.lines if l[0] == "ev" and l[2] == "updated")
+                ks = list(o.keys())
+                idx = ks.index("graceful_timeout")
+                need = 1 if "hooks" in ks[:idx] else idx + 1
+                if n_upd >= need:
+                    g = int(round(float(o["graceful_timeout"]) * 1000))
     return g
 
 
@@ -591,6 +598,9 @@ def c03(sc, V):
     owner = {}                # pid -> watcher name
     stop_sent = {}            # pid -> (t, sig, T)
     veto = set(w["name"] for w in sc["watchers"] if "before_signal" in (w.get("hooks") or {}))
+    # a watcher that has been removed (`rm`) is no longer in the snapshot: its workers are then known by the name of
+    # their spawn line (blanks as underscores)
+    veto |= set(n.replace(" ", "_") for n in veto)
     for s in V:
         if s.before.blocked:
             break
